@@ -90,6 +90,14 @@ func LoadProgram(repo, moduleDir string, patterns []string, extraSpecs []string)
 		p.scanInit(sp)
 		p.indexFuncs(sp)
 	}
+	p.registerIfaceImpls()
+	if os.Getenv("GOVC_DEBUG_IFACE") != "" {
+		for k, m := range ifaceImpls {
+			for c := range m {
+				fmt.Println("iface", k, "<-", c)
+			}
+		}
+	}
 	// contract files
 	var files []string
 	for _, pk := range pkgs {
@@ -164,6 +172,32 @@ func (p *Program) scanInit(sp *ssa.Package) {
 			x := &Exec{prog: p}
 			if t, ok := x.constVal(c).(*Term); ok {
 				p.gconsts[g] = t
+			}
+		}
+	}
+}
+
+// registerIfaceImpls records, for the interface types of the repository, which concrete types are converted to them
+// anywhere in the loaded packages (ssa.MakeInterface): a list whose element type is an interface with exactly one
+// implementation in the loaded code is modelled as the list of those implementation values.
+func (p *Program) registerIfaceImpls() {
+	for _, fn := range p.funcsByKey {
+		for _, b := range fn.Blocks {
+			for _, ins := range b.Instrs {
+				mi, ok := ins.(*ssa.MakeInterface)
+				if !ok {
+					continue
+				}
+				it := types.Unalias(mi.Type())
+				nt, ok := it.(*types.Named)
+				if !ok || nt.Obj().Pkg() == nil || !strings.HasPrefix(nt.Obj().Pkg().Path(), "mods.irisnet.org/") {
+					continue
+				}
+				key := types.TypeString(it, nil)
+				if ifaceImpls[key] == nil {
+					ifaceImpls[key] = map[string]types.Type{}
+				}
+				ifaceImpls[key][types.TypeString(mi.X.Type(), nil)] = mi.X.Type()
 			}
 		}
 	}
